@@ -271,3 +271,58 @@ pub fn replay(doc: &serde_json::Value) -> i32 {
         }
     }
 }
+
+// ---------------------------------------------------------------------------------------
+// cross-process build determinism (C14, first sentence): the driver runs this twice in
+// separate processes (different environment size, different worker count) and compares.
+
+pub const ENGINE_IMAGES: u64 = 6;
+
+fn image_hash(spec: &crate::pma::Spec) -> String {
+    use std::hash::{Hash, Hasher};
+    match crate::pma::build(spec) {
+        Ok(p) => {
+            let img = p.serialize();
+            let mut h = std::collections::hash_map::DefaultHasher::new();
+            img.hash(&mut h);
+            format!("{:016x}:{}", h.finish(), img.len())
+        }
+        Err(e) => {
+            let mut h = std::collections::hash_map::DefaultHasher::new();
+            e.hash(&mut h);
+            format!("err:{:016x}", h.finish())
+        }
+    }
+}
+
+#[derive(Default)]
+struct ImgLocal {
+    lines: Vec<(u64, String)>,
+}
+
+pub fn cli_images(args: &[String]) -> i32 {
+    let seed = arg_u64(args, "--seed", 1);
+    let runs = arg_u64(args, "--runs", 3000);
+    let workers = arg_u64(args, "--workers", 16) as usize;
+    let dump = arg(args, "--dump-log").unwrap_or_else(|| harness_error("images: --dump-log required")).to_string();
+    let b = Batch { seed, engine: ENGINE_IMAGES, runs, workers };
+    let locals: Vec<ImgLocal> = batch::run_batch(&b, |k, rs, l: &mut ImgLocal| {
+        let w = threads::generate(rs);
+        l.lines.push((k, format!("{k} {rs} {}\n", image_hash(&w.spec))));
+        false
+    });
+    let mut all: Vec<(u64, String)> = locals.into_iter().flat_map(|l| l.lines).collect();
+    all.sort();
+    let txt: String = all.into_iter().map(|x| x.1).collect();
+    std::fs::write(&dump, txt).unwrap_or_else(|e| harness_error(&format!("write {dump}: {e}")));
+    println!("images: {runs} automata built and hashed");
+    0
+}
+
+/// `dsim image-of <run_seed>`: print the image hash of the automaton of that run seed.
+pub fn cli_image_of(args: &[String]) -> i32 {
+    let rs: u64 = args.first().and_then(|s| s.parse().ok()).unwrap_or_else(|| harness_error("image-of: run seed required"));
+    let w = threads::generate(rs);
+    println!("{}", image_hash(&w.spec));
+    0
+}
